@@ -47,7 +47,10 @@ def line_lower_bound(spec, info, i):
     for c in info["displayed"]:
         v = r[cols.index(c)]
         t = "" if v is None else str(v)
-        w = laygen.measure(t, info["font"], info["size"])
+        body = spec.get("body") or {}
+        ci = cols.index(c)
+        w = laygen.measure(t, laygen.attr_at(body.get("text_font"), i, ci, 1),
+                           laygen.attr_at(body.get("text_font_size"), i, ci, 9))
         lb = max(lb, math.ceil(w / cw - 1e-9))
     return lb
 
@@ -64,6 +67,21 @@ class C03(layfamily.Family):
         hm = ["explicit", "explicit2", "none", "default", "no_colheader"][k % 5]
         spec, info = laygen.gen_spec(rng, header_mode=hm, n=rng.randint(0, 60), nrow=rng.randint(1, 50),
                                      dividers=(k % 7 == 0), font=font, size=size)
+        n, ncols = info["n"], len(spec["df"]["cols"])
+        if n and k % 3 == 0:
+            # row-wise fonts / sizes (matrix attributes) and texts that REPEAT down a column: the height of a row
+            # depends on the row's own font, not on where the text was first seen
+            sizes = [rng.choice([6, 7.5, 9, 12, 18, 24]) for _ in range(n)]
+            spec["body"]["text_font_size"] = [[sz] * ncols for sz in sizes]
+            if rng.random() < 0.5:
+                fonts = [rng.randint(1, 10) for _ in range(n)]
+                spec["body"]["text_font"] = [[f] * ncols for f in fonts]
+            first = len(info["hier"])
+            if info["ndata"] > 1:
+                phrases = ["the same remark repeated down the column", "not evaluable at this visit", "see listing"]
+                for r in spec["df"]["rows"]:
+                    r[first + 1] = rng.choice(phrases[: rng.randint(1, 3)])
+            info["rowwise"] = True
         return spec, info
 
     def oracle(self, spec, info, ob):
